@@ -45,7 +45,7 @@ REQUIRED_THEOREMS = ['Yaql.Props.C09.' + n for n in (
     'convert_input_fresh', 'convert_output_fresh', 'convert_output_no_alias_with_conversion_off',
     'output_conversion_off_aliases', 'convInI_erase', 'convOutI_erase',
     'frame', 'discipline_fresh', 'context_frame', 'only_dollar', 'only_dollar_reads', 'dollar_bound',
-    'reeval', 'reeval_pool')] + ['Yaql.Props.C09Gen.no_param_mutation', 'Yaql.Props.C09Gen.table_nonvacuous']
+    'reeval', 'reeval_pool', 'context_clause_partial')] + ['Yaql.Props.C09Gen.no_param_mutation', 'Yaql.Props.C09Gen.table_nonvacuous']
 TRUSTED = ['harness/gens/mutfacts.py: the AST scan that classifies in-place updates / attribute stores / global writes '
            'per payload parameter (labels, aliasing rules, copy constructors); cross-checked by the dynamic sweep',
            'the snapshot / identity walkers of harness/props/c09.py',
@@ -775,7 +775,7 @@ def loosen(d):
 
 
 def run_pool(world, res, rng, tier, hist):
-    rounds = 8 if tier == 'quick' else 40
+    rounds = 8 if tier == 'quick' else 60
     for rd in range(rounds):
         mode = bool(rd % 2)
         t2l, s2l = pick_opts(rng)
@@ -931,7 +931,7 @@ CTX_FNAMES = ['f', 'g', 'f_']
 
 def run_ctx(world, drv, res, rng, tier, hist):
     from props import c17
-    n = 60 if tier == 'quick' else 400
+    n = 60 if tier == 'quick' else 800
     batch, metas = [], []
     for ci in range(n):
         history = c17.gen_history(rng, rng.randrange(3, 16))
@@ -1179,7 +1179,7 @@ def observe_result(r, objs):
 
 
 def run_conv(world, drv, res, rng, tier, hist):
-    n = 250 if tier == 'quick' else 2500
+    n = 250 if tier == 'quick' else 6000
     batch, metas = [], []
     for ci in range(n):
         op = rng.choice(['in', 'in', 'out', 'out', 'host', 'host', 'host'])
@@ -1412,8 +1412,10 @@ def run(env, res):
             return
     # offending rows of the generated table direct the budget
     focus = set()
-    for f in (env.get('gen') or {}).get('flagged', []):
+    for f in (env.get('gen') or {}).get('broken_rows', []):
         focus.add(f['fn'])
+        if f['param'] == '<globals>':
+            hist['directed-at-module-state-of'] = hist.get('directed-at-module-state-of', []) + [f['fn']]
     t0 = time.time()
     cases, plans = sweep_cases(world, rng, tier, focus)
     hist['sweep-cases'] = len(cases)
@@ -1484,8 +1486,9 @@ def run(env, res):
                 f.replay.setdefault('seed', env['seed'])
                 f.replay.setdefault('tier', tier)
     res.extra['histogram'] = hist
-    res.extra['generated_table'] = dict(rows=(env.get('gen') or {}).get('rows'), flagged=[
-        '%s:%s' % (f['fn'], f['param']) for f in (env.get('gen') or {}).get('flagged', [])])
+    res.extra['generated_table'] = dict(rows=(env.get('gen') or {}).get('rows'), flagged_and_allowed=[
+        '%s:%s' % (f['fn'], f['param']) for f in (env.get('gen') or {}).get('flagged', [])],
+        rows_breaking_no_param_mutation=(env.get('gen') or {}).get('broken_rows', []))
 
 
 LEVEL_TEXT = ('Lean 4 theorems over (1) a model of utils.convert_input_data / convert_output_data on Python objects with '
